@@ -231,3 +231,37 @@ Proof. exists (Some 9), KCancel. split; [reflexivity|]. intros [|]; discriminate
 (* ... and it is indistinguishable for every context without a custom cause *)
 Theorem cause_same_without_custom_cause : forall k, cause_error None k = timeout_error k.
 Proof. reflexivity. Qed.
+
+(* (10) seeded change C04-6: timeoutWriter implements io.ReaderFrom and keeps tw.mu from the
+   first to the last chunk of an io.Copy(w, src).  In the model a copy is a run of AWrite
+   actions; "the mutex is held" = the handler is between two chunks of such a run; the timeout
+   branch, which needs the mutex, is then not enabled. *)
+Definition mid_copy (s : state) : bool :=
+  match rev (hexec s), hrest s with
+  | AWrite _ :: _, AWrite _ :: _ => match hst s with HRun => true | _ => false end
+  | _, _ => false
+  end.
+
+Definition rf_step (s : state) (e : ev) : option (state * ares) :=
+  match e with
+  | ES BTimeout => if mid_copy s then None else step s e
+  | _ => step s e
+  end.
+
+Definition rf_stepT (s : state) (e : ev) : state :=
+  match rf_step s e with Some (s', _) => s' | None => s end.
+
+Definition rf_run (s : state) (sched : list ev) : state := fold_left rf_stepT sched s.
+
+(* Props.returns_at_deadline fails: Done has happened, ServeHTTP is still selecting, and the
+   timeout branch cannot run — for as long as the source of the copy stays silent *)
+Theorem readfrom_holds_mutex_refuted :
+  exists script sched k,
+    let s := rf_run (init false [] script) sched in
+    dk s = Some k /\ sst s = SWait /\ rf_step s (ES BTimeout) = None /\
+    (forall n, sst (rf_run s (repeat (ES BTimeout) n)) = SWait).
+Proof.
+  exists [AWrite [200]; AWrite [201]], [EH; ED KDeadline], KDeadline.
+  split; [reflexivity|]. split; [reflexivity|]. split; [reflexivity|].
+  induction n as [|n IH]; [reflexivity|]. exact IH.
+Qed.
